@@ -37,6 +37,8 @@ func runC02(c *Ctx) {
 	c02R4(c, p)
 	c02R5(c, p, "C02.R5")
 	c02R6(c, p)
+	c02R7(c, p)
+	c02R8(c, p)
 }
 
 // atom is a normalised atomic condition.
@@ -919,5 +921,223 @@ func init() {
 		Mutant{Name: "C02.R5-moves-played-on-copy", Prop: "C02", File: "uci/uci.go",
 			Old: "\tb := d.board\n\tfor _, ms := range moves {", New: "\tcp := *d.board\n\tb := &cp\n\tfor _, ms := range moves {",
 			Expect: "C02.R5/applyMoves#persistent-board"},
+	)
+}
+
+// C02.R7: CanEnPassant decides "some enemy pawn can capture en passant without
+// exposing its king": (a) existential shape — `true` is returned exactly when,
+// for one candidate capturer, the king is not attacked after the capture, and
+// `false` only after all candidates failed; (b) the occupancy simulated for that
+// test has the capturer on the en-passant square and neither the capturer's
+// old square, nor the pushed pawn's destination, nor (the move has not been
+// played yet) the pushed pawn's ORIGIN square.
+func c02R7(c *Ctx, p *Prog) {
+	const rule = "C02.R7"
+	fn := p.Func("board.(*Board).CanEnPassant")
+	if fn == nil {
+		c.Anchor(rule, "board.(*Board).CanEnPassant")
+		return
+	}
+	if len(fn.Params) != 2 {
+		c.Undec(rule, "CanEnPassant#params", fn.Pos(), "expected (b, to)")
+		return
+	}
+	to := fn.Params[1]
+	atts := callsIn(fn, "board.(*Board).IsAttacked")
+	if len(atts) != 1 {
+		c.Undec(rule, "CanEnPassant#test", fn.Pos(), "expected one IsAttacked test per candidate capturer, found %d", len(atts))
+		return
+	}
+	att := atts[0].(*ssa.Call)
+	// (a) existential shape
+	okTrue, okFalse := true, true
+	nTrue := 0
+	allInstrs(fn, func(in ssa.Instruction) {
+		ret, ok := in.(*ssa.Return)
+		if !ok || len(ret.Results) != 1 {
+			return
+		}
+		k, isc := constOf(ret.Results[0])
+		if !isc {
+			okTrue, okFalse = false, false
+			return
+		}
+		underNotAttacked, underAttacked := false, false
+		for _, ce := range append(controllingConds(ret.Block()), entryEdgesAsConds(ret.Block())...) {
+			v, pol := ce.Cond, ce.True
+			if u, ok := v.(*ssa.UnOp); ok && u.Op == token.NOT {
+				v, pol = u.X, !pol
+			}
+			if v == ssa.Value(att) {
+				if pol {
+					underAttacked = true
+				} else {
+					underNotAttacked = true
+				}
+			}
+		}
+		if k == 1 {
+			nTrue++
+			if !underNotAttacked {
+				okTrue = false
+			}
+		} else if underAttacked || underNotAttacked {
+			okFalse = false // false decided from a single candidate
+		}
+	})
+	c.Check(okTrue && nTrue >= 1, rule, "CanEnPassant#exists-capturer", att.Pos(), "true is returned exactly when one candidate capturer can take without exposing its king (existential over the candidates)")
+	c.Check(okFalse, rule, "CanEnPassant#false-only-after-all", att.Pos(), "false is returned only after every candidate capturer failed, never from a single pinned candidate")
+	// (b) simulated occupancy
+	occ := stripConv(att.Call.Args[2])
+	var incl, excl []ssa.Value
+	if bo, ok := occ.(*ssa.BinOp); ok {
+		switch bo.Op {
+		case token.AND_NOT:
+			flattenOr(bo.X, &incl)
+			flattenOr(bo.Y, &excl)
+		case token.AND:
+			for _, pr := range [][2]ssa.Value{{bo.X, bo.Y}, {bo.Y, bo.X}} {
+				if u, ok := pr[1].(*ssa.UnOp); ok && u.Op == token.XOR {
+					flattenOr(pr[0], &incl)
+					flattenOr(u.X, &excl)
+				}
+			}
+		}
+	}
+	if len(excl) == 0 {
+		c.Undec(rule, "CanEnPassant#occupancy", att.Pos(), "occupancy of the capture simulation is not of the form (pieces | added) &^ (removed)")
+		return
+	}
+	// square offsets relative to `to` of 1<<(to - k*shift) terms; shift = shifts[STM]
+	offsetOf := func(v ssa.Value) (int64, bool) {
+		x, ok := oneShlOf(v)
+		if !ok {
+			return 0, false
+		}
+		if x == ssa.Value(to) {
+			return 0, true
+		}
+		bo, ok := x.(*ssa.BinOp)
+		if !ok || bo.Op != token.SUB || stripConv(bo.X) != ssa.Value(to) {
+			return 0, false
+		}
+		y := stripConv(bo.Y)
+		if isShiftLoad(y) {
+			return 1, true
+		}
+		if m, ok := y.(*ssa.BinOp); ok && m.Op == token.MUL {
+			for _, pr := range [][2]ssa.Value{{m.X, m.Y}, {m.Y, m.X}} {
+				if k, isc := constOf(pr[0]); isc && isShiftLoad(stripConv(pr[1])) {
+					return k, true
+				}
+			}
+		}
+		return 0, false
+	}
+	hasIncl := map[int64]bool{}
+	for _, v := range incl {
+		if k, ok := offsetOf(v); ok {
+			hasIncl[k] = true
+		}
+	}
+	hasExcl := map[int64]bool{}
+	capturerRemoved := false
+	for _, v := range excl {
+		if k, ok := offsetOf(v); ok {
+			hasExcl[k] = true
+			continue
+		}
+		// the candidate capturer: x & -x of the candidate set
+		capturerRemoved = true
+	}
+	c.Check(hasIncl[1], rule, "CanEnPassant#occupancy#capturer-lands", att.Pos(), "the capturing pawn is placed on the en-passant square (to - shift)")
+	c.Check(hasExcl[0], rule, "CanEnPassant#occupancy#pushed-pawn-captured", att.Pos(), "the pushed pawn's destination square is emptied (it is captured)")
+	c.Check(capturerRemoved, rule, "CanEnPassant#occupancy#capturer-leaves", att.Pos(), "the capturing pawn leaves its square")
+	c.Check(hasExcl[2], rule, "CanEnPassant#occupancy#origin-vacated", att.Pos(), "the pushed pawn's ORIGIN square (to - 2*shift) is emptied: CanEnPassant runs before the move is played, so the pawn still stands there and would shield a line the push opens (e.g. 8/8/8/8/3pk3/8/2P5/1B2K3 w: after c2c4 Black is in check from b1 and dxc3 e.p. is illegal)")
+}
+
+func isShiftLoad(v ssa.Value) bool {
+	l, ok := v.(*ssa.UnOp)
+	if !ok || l.Op != token.MUL {
+		return false
+	}
+	ia, ok := l.X.(*ssa.IndexAddr)
+	if !ok {
+		return false
+	}
+	g, ok := ia.X.(*ssa.Global)
+	if !ok || g.Name() != "shifts" {
+		return false
+	}
+	return isFieldLoad(stripConv(ia.Index), "Board.STM")
+}
+
+func flattenOr(v ssa.Value, out *[]ssa.Value) {
+	if bo, ok := stripConv(v).(*ssa.BinOp); ok && bo.Op == token.OR {
+		flattenOr(bo.X, out)
+		flattenOr(bo.Y, out)
+		return
+	}
+	*out = append(*out, stripConv(v))
+}
+
+func entryEdgesAsConds(b *ssa.BasicBlock) []condEdge {
+	var out []condEdge
+	if len(b.Preds) == 1 {
+		out = append(out, edgeCond(b.Preds[0], b)...)
+	}
+	return out
+}
+
+// C02.R8: every UCI `position` command installs a fresh board before its move
+// list is applied: each applyMoves call in handlePosition is dominated by a
+// store to Driver.board (StartPos() / the accepted FEN board) of that command.
+func c02R8(c *Ctx, p *Prog) {
+	const rule = "C02.R8"
+	fn := p.Func("uci.(*Driver).handlePosition")
+	if fn == nil {
+		c.Anchor(rule, "uci.(*Driver).handlePosition")
+		return
+	}
+	calls := callsIn(fn, "uci.(*Driver).applyMoves")
+	for i, ci := range calls {
+		fresh := false
+		for _, st := range fieldStores(fn, "Driver.board") {
+			if !instrDominates(st, ci.(ssa.Instruction)) {
+				continue
+			}
+			v := stripConv(st.Val)
+			if isCallValueTo(v, "board.StartPos") {
+				fresh = true
+			}
+			if ex, ok := v.(*ssa.Extract); ok && isCallValueTo(ex.Tuple, "board.FromFEN") {
+				fresh = true
+			}
+		}
+		c.Check(fresh, rule, fmt.Sprintf("handlePosition#applyMoves@%d", i+1), ci.Pos(), "the move list is applied to a board installed by this very command (StartPos() or the accepted FEN) on every path: the resulting position does not depend on earlier commands")
+	}
+	c.Floor(rule, len(calls), 2, "applyMoves calls in handlePosition")
+	// and applyMoves has no other caller
+	for _, f := range p.OwnFuncs() {
+		if f != fn && len(callsIn(f, "uci.(*Driver).applyMoves")) > 0 {
+			c.Fail(rule, fnName(f)+"#applyMoves", f.Pos(), "applyMoves is called outside handlePosition")
+		}
+	}
+}
+
+func init() {
+	addMutants(
+		Mutant{Name: "C02.R7-F5-reverted-origin-not-vacated", Prop: "C02", File: "board/attacks.go", Quick: true,
+			Old: "occ := (b.Colors[White] | b.Colors[Black] | dest) &^ (target | able | orig)", New: "occ := (b.Colors[White] | b.Colors[Black] | dest) &^ (target | able)\n\t\t_ = orig",
+			Expect: "C02.R7/CanEnPassant#occupancy#origin-vacated"},
+		Mutant{Name: "C02.R7-universal-instead-of-existential", Prop: "C02", File: "board/attacks.go",
+			Old: "\t\tif !b.IsAttacked(b.STM, occ, king) {\n\t\t\treturn true\n\t\t}\n\t}\n\treturn false\n}", New: "\t\tif b.IsAttacked(b.STM, occ, king) {\n\t\t\treturn false\n\t\t}\n\t}\n\treturn them != 0\n}",
+			Expect: "C02.R7/CanEnPassant#"},
+		Mutant{Name: "C02.R7-capturer-not-placed", Prop: "C02", File: "board/attacks.go",
+			Old: "occ := (b.Colors[White] | b.Colors[Black] | dest) &^ (target | able | orig)", New: "occ := (b.Colors[White] | b.Colors[Black]) &^ (target | able | orig)\n\t\t_ = dest",
+			Expect: "C02.R7/CanEnPassant#occupancy#capturer-lands"},
+		Mutant{Name: "C02.R8-incremental-replay-keeps-old-board", Prop: "C02", File: "uci/uci.go", Quick: true,
+			Old: "\t\td.board = board.StartPos()\n\t\tif len(args) > 2 && args[1] == \"moves\" {", New: "\t\tif len(args) <= 2 || d.board == nil {\n\t\t\td.board = board.StartPos()\n\t\t}\n\t\tif len(args) > 2 && args[1] == \"moves\" {",
+			Expect: "C02.R8/handlePosition#applyMoves@1"},
 	)
 }
